@@ -78,18 +78,23 @@ class World(object):
                 a[r.randrange(3)] = two + 10 ** r.uniform(-3, 0)
             return tuple(a)
         mod = self.mods[m] if m in ("tools", "laue") else self.mods["tools"]
-        if f in ("ubi_to_u", "ubi_to_u_and_eps"):
+        if f in ("ubi_to_u", "ubi_to_u_and_eps", "ubi_to_rod", "ubi_to_u_b"):
             was = self.xfab.CHECKS.activated
             self.xfab.CHECKS.activated = True
             try:
-                ubi = mod.u_to_ubi(self.rot(), self.cell)
+                U0 = self.rot()
+                if c == "halfturn":
+                    # rotation by exactly 180 degrees: Cayley with q = 0; also the axis-aligned ones (diag(1,-1,-1), ...)
+                    p = r.choice([[1, 0, 0], [0, 1, 0], [0, 0, 1], [r.randint(-4, 4), r.randint(-4, 4), r.randint(1, 4)]])
+                    U0 = cayley(p, 0)
+                ubi = mod.u_to_ubi(U0, self.cell)
             finally:
                 self.xfab.CHECKS.activated = was
             if c == "lefthanded":
                 i, j = r.sample([0, 1, 2], 2)
                 ubi = ubi.copy()
                 ubi[[i, j]] = ubi[[j, i]]
-            return (ubi,) if f == "ubi_to_u" else (ubi, self.cell)
+            return (ubi, self.cell) if f == "ubi_to_u_and_eps" else (ubi,)
         if f == "ub_to_u_b":
             B = mod.form_b_mat(self.cell)
             UB = self.rot().dot(B)
@@ -199,7 +204,7 @@ def replay_behaviour(w, hist, v, origin):
             out, sw = w.do_other_instance(w.assign_value(e["v"]))
             desc = "checks._checkState().activated = %r (a second instance)" % (w.assign_value(e["v"]),)
         else:
-            key = (e["m"] if e["f"] in ("ubi_to_u", "ubi_to_u_and_eps", "ub_to_u_b") else "", e["f"], e["c"])
+            key = (e["m"] if e["f"] in ("ubi_to_u", "ubi_to_u_and_eps", "ub_to_u_b", "ubi_to_rod", "ubi_to_u_b") else "", e["f"], e["c"])
             if key not in reuse:
                 reuse[key] = w.make(e["m"], e["f"], e["c"])
             args = reuse[key]
@@ -244,7 +249,9 @@ def record_traces(w, n, maxlen, seed):
                       ("euler_to_u", ["valid", "negative", "above2pi"]),
                       ("ubi_to_u", ["validubi", "lefthanded"]),
                       ("ubi_to_u_and_eps", ["validubi", "lefthanded"]),
-                      ("ub_to_u_b", ["validub", "negdet"])):
+                      ("ub_to_u_b", ["validub", "negdet"]),
+                      ("ubi_to_rod", ["validubi", "lefthanded", "halfturn"]),
+                      ("ubi_to_u_b", ["validubi", "lefthanded"])):
             calls += [(m, f, c) for c in cs]
     calls += [("symmetry", "Umis", c) for c in ["valid64", "valid32", "nonorth", "nonorth2", "detm1"]]
     ev = st.one_of(st.sampled_from(assign_vals).map(lambda x: ("assign", x)),
@@ -269,7 +276,7 @@ def record_traces(w, n, maxlen, seed):
                 tr.append({"ev": "other_instance", "v": x, "out": out, "sw": sw})
             else:
                 m, f, c = x
-                key = (m if f in ("ubi_to_u", "ubi_to_u_and_eps", "ub_to_u_b") else "", f, c)
+                key = (m if f in ("ubi_to_u", "ubi_to_u_and_eps", "ub_to_u_b", "ubi_to_rod", "ubi_to_u_b") else "", f, c)
                 if key not in reuse:
                     reuse[key] = w.make(m, f, c)
                 args = reuse[key]
